@@ -51,6 +51,8 @@ type C15Case struct {
 	Vars    []C15Var   `json:"vars"`
 	NFiles  int        `json:"nfiles"`
 	Cyclic  bool       `json:"cyclic"`
+	// sharedLocs (filled by files): location of every ---@field line whose name several classes may declare -> class
+	sharedLocs map[Loc]string
 }
 
 func init() { register("C15", checkC15) }
@@ -67,6 +69,11 @@ func genC15(t *rapid.T) C15Case {
 		for j := 0; j < nf; j++ {
 			fctr++
 			cl.Fields = append(cl.Fields, fmt.Sprintf("f%c%d", 'a'+byte(fctr%26), fctr))
+		}
+		// field names that several classes of one hierarchy may declare (a child overriding a parent's
+		// field, both arms of a diamond re-declaring a base field)
+		for _, sh := range rapid.SliceOfNDistinct(rapid.SampledFrom([]string{"sh1", "sh2", "sh3"}), 0, 2, func(s string) string { return s }).Draw(t, "sharedFields") {
+			cl.Fields = append(cl.Fields, sh)
 		}
 		np := rapid.IntRange(0, 2).Draw(t, "nparents")
 		for j := 0; j < np; j++ {
@@ -186,12 +193,51 @@ func (c *C15Case) closure(typeName string) (fields map[string]string, edges int)
 	return fields, edges
 }
 
+// closureClasses: the classes whose fields closure(typeName) collects.
+func closureClasses(c *C15Case, typeName string) map[string]bool {
+	classes := map[string]*C15Class{}
+	for i := range c.Classes {
+		classes[c.Classes[i].Name] = &c.Classes[i]
+	}
+	aliases := map[string]string{}
+	for _, a := range c.Aliases {
+		aliases[a.Name] = a.Target
+	}
+	seenAlias := map[string]bool{}
+	for {
+		tg, ok := aliases[typeName]
+		if !ok {
+			break
+		}
+		if seenAlias[typeName] {
+			return map[string]bool{}
+		}
+		seenAlias[typeName] = true
+		typeName = tg
+	}
+	visited := map[string]bool{}
+	var walk func(n string)
+	walk = func(n string) {
+		cl := classes[n]
+		if cl == nil || visited[n] {
+			return
+		}
+		visited[n] = true
+		for _, p := range cl.Parents {
+			walk(p)
+		}
+	}
+	walk(typeName)
+	return visited
+}
+
 func (c *C15Case) files(mode string) (Workspace, map[string]Loc, map[string][2]int) {
 	// returns the workspace, the location of every ---@field name, and per variable the query position
 	names := []string{"main.lua", "types1.lua", "types2.lua"}
 	bufs := make([]strings.Builder, c.NFiles)
 	lines := make([]int, c.NFiles)
 	fieldLoc := map[string]Loc{}
+	c.sharedLocs = map[Loc]string{}
 	w := func(fi int, s string) {
 		bufs[fi].WriteString(s + "\n")
 		lines[fi]++
@@ -216,6 +262,9 @@ func (c *C15Case) files(mode string) (Workspace, map[string]Loc, map[string][2]i
 		for _, f := range cl.Fields {
 			l := "---@field " + f + " number"
 			fieldLoc[f] = Loc{names[fi], lines[fi], 10, lines[fi], 10 + len(f)}
+			if strings.HasPrefix(f, "sh") {
+				c.sharedLocs[fieldLoc[f]] = cl.Name
+			}
 			w(fi, l)
 		}
 		if cl.Direct != "" {
@@ -458,7 +507,19 @@ func checkC15(c C15Case, env *Env) *Violation {
 			return violf("error", "definition failed")
 		}
 		locs, _ := parseLocations(r.Result)
-		if q.inClose {
+		if q.inClose && strings.HasPrefix(q.field, "sh") {
+			// a name declared by several classes: one ---@field line of that name, of a class of the closure
+			okLoc := false
+			if len(locs) == 1 {
+				if cn, isField := c.sharedLocs[locs[0]]; isField && textAt(&ws2, locs[0]) == q.field {
+					_, okLoc = closureClasses(&c, q.v.Type)[cn]
+				}
+			}
+			if !okLoc {
+				return violf("member-def-shared", "go-to-definition on %s.%s (type %s, wrap=%q) returns %s; the member is declared by `---@field %s` lines of classes in the hierarchy of the type\n%s", q.v.Name, q.field, q.v.Type, q.v.Wrap, fmtLocs(locs), q.field, showWS(&ws2))
+			}
+			env.Stats.Class("definition-of-field-declared-by-several-classes")
+		} else if q.inClose {
 			want := fieldLoc[q.field]
 			if len(locs) != 1 || locs[0] != want {
 				return violf("member-def", "go-to-definition on %s.%s (type %s, wrap=%q) returns %s; the member is declared by `---@field %s` at %s\n%s", q.v.Name, q.field, q.v.Type, q.v.Wrap, fmtLocs(locs), q.field, want, showWS(&ws2))
